@@ -330,7 +330,7 @@ def report(ck, pool, fails, label):
 def run(tier, seed):
     ck = Check("C05", tier, seed)
     ck.disagreements = []
-    n_tie = 1500 if tier == "quick" else 20000
+    n_tie = 1500 if tier == "quick" else 12000
     n_prog = 500 if tier == "quick" else 6000
     ck.cov["rule"] = (
         "TIE: random model CssStmt trees (0-6 top-level nodes: style rules with selector lists incl. combinators, "
